@@ -204,6 +204,7 @@ class FlatView:
 
 
 def run(ctx):
+    ctx.guard("C19.REQ", "requirements are checked", lambda: __import__("initspec").check_requires(ctx, "C19"))
     ctx.guard("C19.K17", "constructor fidelity", lambda: __import__("ctor").check_for(ctx, "C19", 7))
     ctx.guard("C19.R1", "generation", lambda: r1_generation(ctx))
     ctx.guard("C19.R2", "pheromone updates", lambda: r2_updates(ctx))
